@@ -125,7 +125,10 @@ struct Plan {
     int fmt = 0;   // 0 pbf 1 osm 2 opl
     int comp = 0;  // 0 none 1 gz 2 bz2
     bool sync = false;
-    int handover = 0;  // 0 items, 1 one buffer, 2 several buffers, 3 items with small writer buffer and flushes
+    int handover = 0;  // 0 items, 1 one buffer, 2 several buffers, 3 items with small writer buffer and flushes, 4 generated call script
+    // handover 4: the caller's history is generated: {0,-}: next item through operator()(item); {1,k}: the next k items in one buffer through
+    // operator()(Buffer&&) (k = 0: an empty buffer); {2,-}: flush(); {3,n}: set_buffer_size(largest item + n)
+    std::vector<std::pair<int, size_t>> script;
     int tail = 0;      // 0 close(); 1 flush() then close(); 2 close() twice; 3 close(), then more data (must be refused)
     std::vector<Obj> data;
     std::string generator = "gen";
@@ -237,6 +240,29 @@ static RunResult run_writer(const Plan& p, bool explicit_close, long rlimit, boo
                         b.commit();
                         (*writer)(std::move(b));
                     }
+                } else if (p.handover == 4) {
+                    size_t largest = 64;
+                    for (size_t off : offs) largest = std::max<size_t>(largest, buf.get<osmium::memory::Item>(off).padded_size());
+                    size_t next = 0;
+                    auto hand_over_items = [&](size_t k) {
+                        osmium::memory::Buffer b{256, osmium::memory::Buffer::auto_grow::yes};
+                        for (; k > 0 && next < offs.size(); --k, ++next) {
+                            b.add_item(buf.get<osmium::memory::Item>(offs[next]));
+                            b.commit();
+                        }
+                        (*writer)(std::move(b));
+                    };
+                    for (const auto& op : p.script) {
+                        switch (op.first) {
+                            case 0:
+                                if (next < offs.size()) (*writer)(buf.get<osmium::memory::Item>(offs[next++]));
+                                break;
+                            case 1: hand_over_items(op.second); break;
+                            case 2: writer->flush(); break;
+                            default: writer->set_buffer_size(largest + op.second); break;
+                        }
+                    }
+                    while (next < offs.size()) (*writer)(buf.get<osmium::memory::Item>(offs[next++]));  // whatever the script left over
                 } else {
                     if (p.handover == 3) {
                         size_t largest = 64;
@@ -325,7 +351,7 @@ static void prop(Src& s) {
     p.fmt = static_cast<int>(s.draw(3));
     p.comp = p.fmt == 0 ? 0 : static_cast<int>(s.weighted({2, 2, 2}));
     p.sync = s.chance(1, 3);
-    p.handover = static_cast<int>(s.draw(4));
+    p.handover = static_cast<int>(s.weighted({2, 2, 2, 2, 4}));
     p.tail = static_cast<int>(s.weighted({4, 2, 2, 2}));
     {
         gen::ObjOpts go;
@@ -342,12 +368,30 @@ static void prop(Src& s) {
         }
         std::stable_sort(p.data.begin(), p.data.end(), [](const Obj& a, const Obj& b) { return a.type < b.type; });
     }
+    std::string script_text;
+    if (p.handover == 4) {
+        // the caller's history: single items, buffers (also empty ones), flushes (also two in a row and before anything was written) and
+        // changes of the Writer's buffer size (also to the size it already has, also right after a flush), in any order
+        static const size_t sizes[] = {64, 64, 200, 4096, 65536, 1024 * 1024, 10 * 1024 * 1024};
+        const size_t steps = 1 + s.size(std::max<size_t>(8, 2 * p.data.size()));
+        for (size_t i = 0; i < steps && i < 4000; ++i) {
+            switch (s.weighted({5, 3, 3, 2})) {
+                case 0: p.script.emplace_back(0, 0); script_text += "i"; break;
+                case 1: p.script.emplace_back(1, s.draw(4)); script_text += "b" + std::to_string(p.script.back().second); break;
+                case 2: p.script.emplace_back(2, 0); script_text += "f"; break;
+                default: p.script.emplace_back(3, sizes[s.draw(sizeof(sizes) / sizeof(sizes[0]))]); script_text += "s" + std::to_string(p.script.back().second); break;
+            }
+            if (script_text.size() < 200) script_text += ' ';
+        }
+        if (script_text.size() > 200) script_text.resize(200);
+        vp::count("handover_call_script");
+    }
     // ---- fault-free reference
     reset_interposer();
     (void)osmium::thread::Pool::default_instance();  // the process-wide pool keeps its worker threads: they belong to the baseline
     const int threads_before = perturb::thread_count();
     RunResult ref = run_writer(p, true, -1);
-    const std::string base = p.format_string() + (p.sync ? " fsync" : "") + " handover=" + std::to_string(p.handover) + " tail=" + std::to_string(p.tail) + " objects=" + std::to_string(p.data.size());
+    const std::string base = p.format_string() + (p.sync ? " fsync" : "") + " handover=" + std::to_string(p.handover) + " tail=" + std::to_string(p.tail) + " objects=" + std::to_string(p.data.size()) + (p.handover == 4 ? " script=[" + script_text + "]" : "");
     VP_CHECK(!ref.threw, "writer-fails-without-fault", "the Writer reported an error although nothing failed: " << ref.what << " (" << ref.where << ") | " << base);
     const long S = static_cast<long>(ref.file.size());
     VP_CHECK(ref.close_return == ref.file.size() || ref.close_return == 0, "close-return-value", "close() returned " << ref.close_return << ", the file has " << ref.file.size() << " bytes | " << base);
@@ -363,6 +407,10 @@ static void prop(Src& s) {
             vp::fail("complete-file-unreadable", std::string{"file written without error cannot be read back: "} + e.what() + " | " + base);
         }
         VP_CHECK(back.size() == p.data.size(), "complete-file-content", "file written without error contains " << back.size() << " objects, " << p.data.size() << " were written | " << base);
+        for (size_t i = 0; i < back.size(); ++i) {
+            VP_CHECK(back[i].type == p.data[i].type && back[i].id == p.data[i].id && back[i].version == p.data[i].version && back[i].tags == p.data[i].tags, "complete-file-content",
+                     "file written without error: object #" << i << " read back as " << model::show(back[i]).substr(0, 200) << ", written was " << model::show(p.data[i]).substr(0, 200) << " | " << base);
+        }
     }
     const long ref_writes = g.write_calls.load();
     const long ref_closes = g.close_calls.load();
